@@ -101,6 +101,12 @@ impl<'a, H> PacketBuffer<'a, H> {
                 // ring buffer.
                 return Err(Full);
             } else {
+                // The padding takes a metadata slot in addition to the one for
+                // the packet; don't leave a stray padding behind if the packet
+                // itself then cannot be enqueued.
+                if self.metadata_ring.window() < 2 {
+                    return Err(Full);
+                }
                 // Add padding to the end of the ring buffer so that the
                 // contiguous window is at the beginning of the ring buffer.
                 *self.metadata_ring.enqueue_one()? = PacketMetadata::padding(contig_window);
@@ -151,6 +157,12 @@ impl<'a, H> PacketBuffer<'a, H> {
                 // ring buffer.
                 return Err(Full);
             } else {
+                // The padding takes a metadata slot in addition to the one for
+                // the packet; don't leave a stray padding behind if the packet
+                // itself then cannot be enqueued.
+                if self.metadata_ring.window() < 2 {
+                    return Err(Full);
+                }
                 // Add padding to the end of the ring buffer so that the
                 // contiguous window is at the beginning of the ring buffer.
                 *self.metadata_ring.enqueue_one()? = PacketMetadata::padding(contig_window);
